@@ -7,22 +7,25 @@ def run(tier, seed, replay=None):
     prayerday_mc(rep, "C08", ["StagedIsPure", "FajrIshaOnly", "InvalidKeepsValid", "IdentityWhenAllValid", "UnflaggedIsConventional"],
                  roundings="{0, 2}", fajr_offsets="{0, 90000}")
     # vacuity: the pre-fix unflagged interval-fallback Imsaak (D8) must violate the flag clause in the same model
-    cfg = write_cfg("C08legacy.cfg", {"LegacyUnwrap": "FALSE", "LegacyImsaak": "FALSE", "LegacyImsaakFlag": "TRUE", "Roundings": "{0}",
+    cfg = write_cfg("C08legacy.cfg", {"LegacyUnwrap": "FALSE", "LegacyImsaak": "FALSE", "LegacyImsaakFlag": "TRUE", "LegacyLateInt": "FALSE", "Roundings": "{0}",
                                       "FajrOffsets": "{0}", "NegOffsets": "FALSE"}, ["UnflaggedIsConventional"])
     leg = tlc_must_fail("PrayerDay", cfg, expect="UnflaggedIsConventional", workers=6, heap="6g")
     rep.add_tlc(leg)
-    # the known findings F2 / F3 are named actions of the trace spec; a recorded fixture (2 F2-shaped and 2 F3-shaped
-    # events of the real code) must be rejected while they are disabled and accepted, every use printed, while enabled
+    # vacuity: the pre-fix order of adj_for_ext_lat (D9: intervals applied only after the policy, formerly the known
+    # findings F2 / F3) must violate the 'only if invalid' clauses in the same model
+    cfg = write_cfg("C08legacyD9.cfg", {"LegacyUnwrap": "FALSE", "LegacyImsaak": "FALSE", "LegacyImsaakFlag": "FALSE", "LegacyLateInt": "TRUE",
+                                        "Roundings": "{0}", "FajrOffsets": "{0}", "NegOffsets": "FALSE"}, ["InvalidKeepsValid"])
+    rep.add_tlc(tlc_must_fail("PrayerDay", cfg, expect="InvalidKeepsValid", workers=6, heap="6g"))
+    cfg = write_cfg("C08legacyD9b.cfg", {"LegacyUnwrap": "FALSE", "LegacyImsaak": "FALSE", "LegacyImsaakFlag": "FALSE", "LegacyLateInt": "TRUE",
+                                         "Roundings": "{0}", "FajrOffsets": "{0}", "NegOffsets": "FALSE"}, ["IdentityWhenAllValid"])
+    rep.add_tlc(tlc_must_fail("PrayerDay", cfg, expect="IdentityWhenAllValid", workers=6, heap="6g"))
+    # recorded events of the pre-fix code of both shapes (fixtures/) must be rejected by the trace specification
     fx = os.path.join(VERIF, "fixtures", "c08_known_f2_f3.ndjson")
     nfx = sum(1 for _ in open(fx))
     bad0, _, _, _ = validate_trace("PrayerDayTrace", "PrayerDayTrace.cfg", fx, nfx, max_violations=nfx + 1, heap="2g")
     if len(bad0) != nfx:
-        raise ToolError(f"known-finding fixture: {len(bad0)} of {nfx} events rejected with the findings disabled (all must be)")
-    bad1, _, _, _ = validate_trace("PrayerDayTrace", "PrayerDayTrace.cfg", fx, nfx, heap="2g", env={"KNOWN_F2": "1", "KNOWN_F3": "1"})
-    hits = sum(len(v) for v in validate_trace.known_hits.values())
-    if bad1 or hits != nfx:
-        raise ToolError(f"known-finding fixture: {len(bad1)} rejected / {hits} announced of {nfx} with the findings enabled")
-    rep.extra["known_finding_fixture"] = {"events": nfx, "rejected_when_disabled": len(bad0), "accepted_when_enabled": hits}
+        raise ToolError(f"D9 fixture: only {len(bad0)} of {nfx} recorded pre-fix events are rejected by the trace specification")
+    rep.extra["d9_fixture"] = {"events": nfx, "rejected": len(bad0)}
     n = 300000 if tier == "thorough" else 15000
     info, events = validate_events(rep, "C08", ["--n", n], "c08", heap="10g" if tier == "thorough" else "6g")
     cells = set()
